@@ -16,6 +16,11 @@ import Verif.Drv.LeafStore
 import Verif.Drv.Coalesce
 import Verif.Drv.LeafPos
 import Verif.Drv.BqCount
+import Verif.Drv.Emphasis
+import Verif.Drv.LinkRecog
+import Verif.Drv.InlineRecog
+import Verif.Drv.GfmRender
+import Verif.Drv.TokenRules
 
 /-- model name → request handler (one request line in, one answer line out). -/
 def models : List (String × (String → String)) :=
@@ -48,7 +53,12 @@ def models : List (String × (String → String)) :=
    ("fields", Verif.Drv.LeafStore.stepFields),
    ("coalesce", Verif.Drv.Coalesce.step),
    ("leafpos", Verif.Drv.LeafPos.step),
-   ("bqcount", Verif.Drv.BqCount.step)]
+   ("bqcount", Verif.Drv.BqCount.step),
+   ("emph", Verif.Drv.Emphasis.step),
+   ("linkrecog", Verif.Drv.LinkRecog.step),
+   ("inlinerecog", Verif.Drv.InlineRecog.step),
+   ("gfm", Verif.Drv.GfmRender.step),
+   ("tokenrules", Verif.Drv.TokenRules.step)]
 
 partial def loop (h : IO.FS.Stream) (out : IO.FS.Stream) (f : String → String) : IO Unit := do
   let line ← h.getLine
